@@ -1,7 +1,7 @@
 (* C04 -- property theorems: score -> MIDI -> score.  Statements + `exact` only; proofs are in
    Proofs/C04.v.  All definitions are those of Model/C04.v, the model the correspondence of
    harness/props/c04.py evaluates against save_score_midi / load_score_midi on every run. *)
-From PV Require Import Lib.Base Lib.Round Model.C04 Model.C04_stream Model.C04_hist Proofs.C04 Proofs.C04_nonneg Proofs.C04_stream Proofs.C04_hist.
+From PV Require Import Lib.Base Lib.Round Model.C04 Model.C04_stream Model.C04_hist Model.C04_tsc Proofs.C04 Proofs.C04_nonneg Proofs.C04_stream Proofs.C04_hist Proofs.C04_tsc.
 From Coq Require Import QArith Permutation.
 #[local] Open Scope Z_scope.
 
@@ -324,3 +324,83 @@ Theorem history_example :
   /\ state_after [[(0, 4)]; [(0, 6)]] [HSetQD 0 16 5; HSetQD 0 32 5; HSetQD 1 0 8] = [[(0, 4); (16, 5)]; [(0, 8)]].
 Proof. exact history_example_pf. Qed.
 Print Assumptions history_example.
+
+(* ---- round j (Model/C04_tsc.v): the time-signature branch of save_score_midi under "time_sig_change" -- the
+   insertion-ordered dict meta_events[part] (tick -> list), the measure loop with ts_changing_time and
+   fitted_measure_time, the two-entries clean-up, the part's own signatures, then the key signatures; merged into
+   the track with the dicts of the other parts of the track. *)
+
+(* the dict: d[k].append(x) changes the list at k and no other *)
+Theorem tsc_dict_append_spec : forall d k x k',
+  d_get (d_append d k x) k' = if k' =? k then d_get d k' ++ [x] else d_get d k'.
+Proof. exact d_get_append. Qed.
+Print Assumptions tsc_dict_append_spec.
+
+(* O4 under time_sig_change, key signatures, unbounded: for ALL tick maps, time signatures, measures (regular or
+   not) and whatever other parts share the track (ds), every key signature of the part is in the written sequence
+   of the track at the tick of its time -- the clean-up of the time-signature branch never removes one *)
+Theorem tsc_keysig_written : forall tk tsigs ksigs ms ds t code,
+  In (tsc_dict 0 tk tsigs ksigs ms) ds -> In (t, code) ksigs ->
+  In (tk t, (3, code, 0)) (track_meta_seq ds).
+Proof. exact keysig_in_track. Qed.
+Print Assumptions tsc_keysig_written.
+
+(* O4 under time_sig_change, time signatures; COMPLETE FINITE DOMAIN (the bound is `grids 5`: every measure grid of
+   1..5 measures, each 2, 3 or 4 beats long, each with no / a 3/4 / a 4/4 / a 3/8 signature at its start, the first
+   one with a signature: 203589 grids; tick map 3t+1, key signatures at 0 and 8): at the start tick of EVERY measure
+   a reader of the track holds the score's signature when the measure has its nominal length and the fitted one
+   (length in beats, same beat type) when it does not, and no tick carries two time signatures *)
+Theorem tsc_signature_in_force_grids5 : forall g, In g (grids 5) ->
+  let '(ts, ms) := grid_build 0 (4, 4) g in
+  (forall m, In m ms ->
+     in_force (track_meta_seq [tsc_dict 0 tk3 ts ks0 ms]) (tk3 (fst (fst m))) = Some (tsc_expected ts m))
+  /\ NoDup (tsig_ticks (track_meta_seq [tsc_dict 0 tk3 ts ks0 ms])).
+Proof. exact tsc_in_force_grids5. Qed.
+Print Assumptions tsc_signature_in_force_grids5.
+
+Theorem tsc_grids_example :
+  Z.of_nat (List.length (grids 5)) = 203589 /\
+  In [(2, 2); (3, 0); (4, 0); (3, 1)] (grids 5) /\
+  (let '(ts, ms) := grid_build 0 (4, 4) [(2, 2); (3, 0); (4, 0); (3, 1)] in
+   ts = [(0, 4, 4); (18, 3, 4)] /\
+   ms = [(0, 4, inject_Z 2); (4, 10, inject_Z 3); (10, 18, inject_Z 4); (18, 24, inject_Z 3)] /\
+   track_meta_seq [tsc_dict 0 tk3 ts ks0 ms] =
+     [(1, (2, 2, 4)); (1, (3, 5, 0)); (13, (2, 3, 4)); (25, (3, 7, 0)); (31, (2, 4, 4)); (55, (2, 3, 4))]).
+Proof. exact grids5_example. Qed.
+Print Assumptions tsc_grids_example.
+
+(* the statement discriminates: three one-token slips of the algorithm fail it on a grid of the domain *)
+Theorem tsc_keysigs_before_cleanup_refuted :
+  exists g, In g (grids 5) /\ grid_ok 1 tk3 ks0 g = false /\ grid_ok 0 tk3 ks0 g = true.
+Proof. exact tsc_variant1_refuted. Qed.
+Print Assumptions tsc_keysigs_before_cleanup_refuted.
+
+Theorem tsc_cleanup_keeps_first_refuted :
+  exists g, In g (grids 5) /\ grid_ok 2 tk3 ks0 g = false /\ grid_ok 0 tk3 ks0 g = true.
+Proof. exact tsc_variant2_refuted. Qed.
+Print Assumptions tsc_cleanup_keeps_first_refuted.
+
+Theorem tsc_restore_unconditional_refuted :
+  exists g, In g (grids 5) /\ grid_ok 3 tk3 ks0 g = false /\ grid_ok 0 tk3 ks0 g = true.
+Proof. exact tsc_variant3_refuted. Qed.
+Print Assumptions tsc_restore_unconditional_refuted.
+
+(* O4 under time_sig_change, the score's own time signatures, unbounded: for ALL tick maps, signature lists, key
+   signatures, measure lists and other parts of the track, a time signature of the part is in the written sequence
+   of the track at the tick of its time unless a measure that does not have its nominal length starts there (then
+   the fitted signature stands in its place, tsc_signature_in_force_grids5) *)
+Theorem tsc_own_signature_written : forall tk tsigs ksigs ms ds t b bt,
+  In (tsc_dict 0 tk tsigs ksigs ms) ds -> In (t, b, bt) tsigs ->
+  (forall m, In m ms -> fst (fst m) = t -> irregular tsigs m = false) ->
+  In (tk t, (2, b, bt)) (track_meta_seq ds).
+Proof. exact own_signature_written. Qed.
+Print Assumptions tsc_own_signature_written.
+
+(* hypotheses satisfiable (a signature change at a regular measure); reading ts_changing_time where the code reads
+   fitted_measure_time loses that signature *)
+Theorem tsc_own_signature_wrong_list_refuted : exists tk tsigs ksigs ms t b bt,
+  In (t, b, bt) tsigs /\ (forall m, In m ms -> fst (fst m) = t -> irregular tsigs m = false) /\
+  ~ In (tk t, (2, b, bt)) (track_meta_seq [tsc_dict 4 tk tsigs ksigs ms]) /\
+  In (tk t, (2, b, bt)) (track_meta_seq [tsc_dict 0 tk tsigs ksigs ms]).
+Proof. exact own_variant4_refuted. Qed.
+Print Assumptions tsc_own_signature_wrong_list_refuted.
